@@ -275,6 +275,25 @@ fn execute(prog: Program) -> Outcome {
                 last_seen = after.clone();
                 // retention: what is left must be a suffix of what was there, and must still hold the
                 // newest floor(max/25) records
+                // rotation keeps the NEWEST records: whatever survives is a contiguous suffix of what was there
+                if strict_clock {
+                    let is_suffix = after.len() <= before.len()
+                        && before[before.len() - after.len()..].iter().zip(after.iter()).all(|(a, b)| a.time == b.time && a.key == b.key && a.db == b.db && a.op == b.op);
+                    if !is_suffix {
+                        out.violations.push(Violation::new(
+                            "retention-not-newest",
+                            format!("{}", if nfiles_before >= 10 { "10+files" } else { "<10files" }),
+                            format!(
+                                "op #{}: declutter left {} of {} records ({} rotated files before) and they are not the newest ones: a record was dropped while an older one was kept",
+                                oi,
+                                after.len(),
+                                before.len(),
+                                nfiles_before
+                            ),
+                        ));
+                        return out;
+                    }
+                }
                 let keep = (max_log / 25) as usize;
                 let must = before.len().min(keep);
                 let tail_ok = after.len() >= must
